@@ -50,7 +50,14 @@ def chunk_specs(draw, thorough):
 @st.composite
 def cases(draw, tier):
     thorough = tier == "thorough"
-    ss = draw(gen.seqsets(max_n=40 if not thorough else 120, max_len=200 if not thorough else 700, case=True))
+    if draw(st.integers(0, 11)) == 0:
+        # around the readers' array increments (512 sequences per msa, merge across files)
+        k0, alpha = draw(gen.alphabets())
+        n0 = draw(st.sampled_from([511, 512, 513, 600, 1024, 1025]))
+        sq = gen.expand_random(draw(st.integers(0, 2 ** 32 - 1)), alpha, n0, 2, draw(st.integers(2, 6)))
+        ss = {"kind": gen.expected_kind(sq), "seqs": sq, "shape": "many"}
+    else:
+        ss = draw(gen.seqsets(max_n=40 if not thorough else 120, max_len=200 if not thorough else 700, case=True))
     seqs = ss["seqs"]
     n = len(seqs)
     names = draw(gen.names_for(n, max_len=30, long_names=False))
@@ -93,6 +100,8 @@ def check(case):
             return engine.discard("a file on its own is not recognisable as the set's kind")
         ch["kindletter"] = "P" if kind == "protein" else "N"
     cl = ["entry=" + case["entry"], "files=%d" % len(chunks)]
+    if n >= 512:
+        cl.append("n>=512")
     for ch in chunks:
         a, b = ch["range"]
         if b - a == 0:
